@@ -43,16 +43,26 @@ size_t libwifi_get_reassoc_resp_length(struct libwifi_reassoc_resp *reassoc_resp
  */
 int libwifi_set_reassoc_resp_channel(struct libwifi_reassoc_resp *reassoc_resp, uint8_t channel) {
     int ret = 0;
+    int present = 0;
 
+    // The new tag is added before the old one is removed, so that a failure leaves the old one in place
     if (reassoc_resp->tags.length != 0) {
-        ret = libwifi_remove_tag(&reassoc_resp->tags, TAG_DS_PARAMETER);
-        if (ret != 0) {
-            return ret;
+        present = libwifi_check_tag(&reassoc_resp->tags, TAG_DS_PARAMETER);
+        if (present < 0) {
+            return present;
         }
     }
 
     const unsigned char *chan = (const unsigned char *) &channel;
     ret = libwifi_quick_add_tag(&reassoc_resp->tags, TAG_DS_PARAMETER, chan, 1);
+    if (ret != 0) {
+        return ret;
+    }
+
+    // The first tag with this number is the old one
+    if (present > 0) {
+        ret = libwifi_remove_tag(&reassoc_resp->tags, TAG_DS_PARAMETER);
+    }
 
     return ret;
 }
